@@ -228,8 +228,10 @@ def _build_block(helper, call, form, target, caller_locals):
     prologue = []
     if first is not None and isinstance(call.func, ast.Attribute) and isinstance(call.func.value, ast.Name) and first != call.func.value.id:
         mapping[first] = call.func.value.id
+    target_name = target if isinstance(target, str) else None
     for name, arg in bound.items():
-        if _simple(arg) and name not in assigned:
+        clobbered = form == "assign" and target_name is not None and any(isinstance(x, ast.Name) and x.id == target_name for x in ast.walk(arg))
+        if _simple(arg) and name not in assigned and not clobbered:
             mapping[name] = arg
         else:
             new = name if name not in caller_locals else name + "_inl"
